@@ -332,10 +332,16 @@ func r152(c *Ctx, sig *types.Signature) {
 						goSenders--
 						hasDrain = true
 					}
-				case "sync-sender":
-					syncSenders++
 				case "recv":
 					plainRecv++
+					// the drain written in place: go func() { for ...; n-- { <-ch } }() - a closure
+					// that only receives and is started as a goroutine
+					if u.fn != fn && u.fn.Parent() != nil && isDrainFunc(u.fn) && startedByGo(u.fn) {
+						plainRecv--
+						hasDrain = true
+					}
+				case "sync-sender":
+					syncSenders++
 				case "recv-select":
 					selRecv++
 				case "escape":
@@ -436,10 +442,42 @@ func r153(c *Ctx) {
 		}
 		found++
 		name := core.FuncName(fn)
-		// the deferred drain
-		var drain *ssa.Function
-		var total, done *ssa.Alloc
+		// the deferred drain: a deferred closure that receives from the result channel as many
+		// times as senders are outstanding - by calling (or starting) a drain function with that
+		// count, or by a receive loop of its own. The count is a linear expression over counters of
+		// the consumer (started - finished, or one counter of pending results).
+		var drain *ssa.Function     // the function that loops
+		var countFV *ssa.FreeVar    // for a drain closure: the captured count it loops over
+		lin := map[*ssa.Alloc]int{} // the count as sum of coefficient * counter
 		var deferredCancel, deferredClose bool
+		var linOf func(v ssa.Value, sign int, depth int, out map[*ssa.Alloc]int) bool
+		linOf = func(v ssa.Value, sign int, depth int, out map[*ssa.Alloc]int) bool {
+			if depth > 6 {
+				return false
+			}
+			if bo, ok := v.(*ssa.BinOp); ok {
+				switch bo.Op {
+				case token.SUB:
+					return linOf(bo.X, sign, depth+1, out) && linOf(bo.Y, -sign, depth+1, out)
+				case token.ADD:
+					return linOf(bo.X, sign, depth+1, out) && linOf(bo.Y, sign, depth+1, out)
+				}
+				return false
+			}
+			a, ok := cellOfLoad(v)
+			if !ok {
+				return false
+			}
+			if a.Parent() == fn {
+				out[a] += sign
+				return true
+			}
+			// a copy taken in the deferred closure: outstanding := pending
+			if sts := core.CellStores(a); len(sts) == 1 {
+				return linOf(sts[0].Val, sign, depth+1, out)
+			}
+			return false
+		}
 		core.Instrs(fn, func(_ *ssa.BasicBlock, _ int, ins ssa.Instruction) {
 			d, ok := ins.(*ssa.Defer)
 			if !ok {
@@ -465,21 +503,80 @@ func r153(c *Ctx) {
 				if !ok {
 					return
 				}
-				sc := ci.Common().StaticCallee()
-				if sc == nil || !isDrainFunc(sc) || len(ci.Common().Args) != 2 {
+				// (a) drainFunc(resultCh, <count>)
+				if sc := ci.Common().StaticCallee(); sc != nil && isDrainFunc(sc) && len(ci.Common().Args) == 2 {
+					if _, isLit := ci.Common().Value.(*ssa.MakeClosure); !isLit {
+						if core.ValueOrigin(ci.Common().Args[0]) != ssa.Value(mk) {
+							return
+						}
+						l := map[*ssa.Alloc]int{}
+						if linOf(ci.Common().Args[1], 1, 0, l) && len(l) > 0 {
+							drain, lin = sc, l
+						}
+						return
+					}
+				}
+				// (b) go func() { for ; n > 0; n-- { <-resultCh } }() with n a captured copy of the count
+				lit, ok := ci.Common().Value.(*ssa.MakeClosure)
+				if !ok {
 					return
 				}
-				if core.ValueOrigin(ci.Common().Args[0]) != ssa.Value(mk) {
+				lf := lit.Fn.(*ssa.Function)
+				if !isDrainFunc(lf) {
 					return
 				}
-				sub, ok := ci.Common().Args[1].(*ssa.BinOp)
-				if !ok || sub.Op != token.SUB {
+				receivesCh := false
+				for i, bnd := range lit.Bindings {
+					if i >= len(lf.FreeVars) {
+						continue
+					}
+					if chanCell, ok := core.ValueOrigin(bnd).(*ssa.Alloc); ok {
+						for _, st := range core.CellStores(chanCell) {
+							if core.ValueOrigin(st.Val) == ssa.Value(mk) {
+								receivesCh = true
+							}
+						}
+					}
+					if fvb, ok := bnd.(*ssa.FreeVar); ok {
+						if chanCell, ok := core.FreeVarBinding(fvb).(*ssa.Alloc); ok {
+							for _, st := range core.CellStores(chanCell) {
+								if core.ValueOrigin(st.Val) == ssa.Value(mk) {
+									receivesCh = true
+								}
+							}
+						}
+					}
+					if core.ValueOrigin(bnd) == ssa.Value(mk) {
+						receivesCh = true
+					}
+				}
+				if !receivesCh {
 					return
 				}
-				ta, _ := cellOfLoad(sub.X)
-				da, _ := cellOfLoad(sub.Y)
-				if ta != nil && da != nil {
-					drain, total, done = sc, ta, da
+				for i, bnd := range lit.Bindings {
+					cell, ok := bnd.(*ssa.Alloc)
+					if !ok || i >= len(lf.FreeVars) || cell.Parent() != cf {
+						continue
+					}
+					if pt, ok := cell.Type().Underlying().(*types.Pointer); !ok || !types.Identical(pt.Elem(), types.Typ[types.Int]) {
+						continue
+					}
+					// the copy is taken in the deferred closure, before the goroutine starts
+					var initial ssa.Value
+					n := 0
+					for _, st := range core.CellStores(cell) {
+						if st.Parent() == cf {
+							initial = st.Val
+							n++
+						}
+					}
+					if n != 1 {
+						continue
+					}
+					l := map[*ssa.Alloc]int{}
+					if linOf(initial, 1, 0, l) && len(l) > 0 {
+						drain, lin, countFV = lf, l, lf.FreeVars[i]
+					}
 				}
 			})
 		})
@@ -491,22 +588,39 @@ func r153(c *Ctx) {
 			r.Violate("R15.3", name, "deferred counted drain", p.Pos(fn.Pos()), "no deferred closure drains the result channel by (started - finished): sub-check goroutines that have not delivered yet block forever on their send")
 			continue
 		}
-		r.Discharge("R15.3", name, "deferred counted drain", p.Pos(fn.Pos()), fmt.Sprintf("deferred closure starts %s(resultCh, total-finished)", core.FuncName(drain)))
-		// drain function loops exactly n times
-		r.Check(drainLoopsN(drain), "R15.3", core.FuncName(drain), "receives exactly n times", p.Pos(drain.Pos()),
-			"the drain loop receives once per iteration, bounded by its count parameter", "the drain function does not receive exactly its count parameter times")
-		// total++ exactly in blocks that start a sender
-		incBlocks := func(a *ssa.Alloc) map[*ssa.BasicBlock]bool {
-			m := map[*ssa.BasicBlock]bool{}
+		var linDesc []string
+		for a, cf := range lin {
+			linDesc = append(linDesc, fmt.Sprintf("%+d*%s", cf, a.Comment))
+		}
+		sort.Strings(linDesc)
+		r.Discharge("R15.3", name, "deferred counted drain", p.Pos(fn.Pos()), fmt.Sprintf("deferred closure drains the result channel %s times through %s", strings.Join(linDesc, " "), core.FuncName(drain)))
+		// the drain loops exactly n times
+		loopsOK := false
+		if countFV == nil {
+			loopsOK = drainLoopsN(drain)
+		} else {
+			loopsOK = drainClosureLoopsN(drain, countFV)
+		}
+		r.Check(loopsOK, "R15.3", core.FuncName(drain), "receives exactly n times", p.Pos(drain.Pos()),
+			"the drain loop receives once per iteration, bounded by its count", "the drain does not receive exactly its count times")
+		// the count goes up by one exactly where a sender is started and down by one exactly where a
+		// result is received: per block, the sum of coefficient * (increments - decrements)
+		delta := map[*ssa.BasicBlock]int{}
+		stray := false
+		for a, coef := range lin {
 			for _, st := range core.CellStores(a) {
 				if st.Parent() != fn {
-					m[nil] = true // written elsewhere
+					stray = true // written elsewhere
 					continue
 				}
-				if b, ok := st.Val.(*ssa.BinOp); ok && b.Op == token.ADD {
+				if b, ok := st.Val.(*ssa.BinOp); ok && (b.Op == token.ADD || b.Op == token.SUB) {
 					if k, ok := core.IntConst(b.Y); ok && k == 1 {
 						if ca, _ := cellOfLoad(b.X); ca == a {
-							m[st.Block()] = true
+							if b.Op == token.ADD {
+								delta[st.Block()] += coef
+							} else {
+								delta[st.Block()] -= coef
+							}
 							continue
 						}
 					}
@@ -514,25 +628,13 @@ func r153(c *Ctx) {
 				if k, ok := core.IntConst(st.Val); ok && k == 0 && st.Block() == fn.Blocks[0] {
 					continue // initialisation
 				}
-				m[nil] = true
+				stray = true
 			}
-			return m
 		}
-		tInc, dInc := incBlocks(total), incBlocks(done)
 		goBlocks := map[*ssa.BasicBlock]bool{}
 		for _, g := range gos {
 			goBlocks[g.Block()] = true
 		}
-		okT := !tInc[nil] && len(tInc) == len(goBlocks)
-		for b := range goBlocks {
-			if !tInc[b] {
-				okT = false
-			}
-		}
-		r.Check(okT, "R15.3", name, "started-counter", p.Pos(total.Pos()),
-			"the started counter is incremented exactly in the blocks that start a sender on the result channel",
-			"the started counter is not incremented exactly where senders are started: the drain count is wrong (leaked sender or blocked drain)")
-		// done++ exactly in the arm bodies that received from the channel
 		recvBlocks := map[*ssa.BasicBlock]bool{}
 		for _, s := range sels {
 			for i, st := range s.States {
@@ -543,14 +645,30 @@ func r153(c *Ctx) {
 				}
 			}
 		}
-		okD := !dInc[nil] && len(dInc) == len(recvBlocks)
+		okT, okD := !stray, !stray
+		for b := range goBlocks {
+			if delta[b] != 1 {
+				okT = false
+			}
+		}
 		for b := range recvBlocks {
-			if !dInc[b] {
+			if delta[b] != -1 {
 				okD = false
 			}
 		}
-		r.Check(okD, "R15.3", name, "finished-counter", p.Pos(done.Pos()),
-			"the finished counter is incremented exactly in the select arm that received a result",
+		for b, d := range delta {
+			if d > 0 && !goBlocks[b] {
+				okT = false
+			}
+			if d < 0 && !recvBlocks[b] {
+				okD = false
+			}
+		}
+		r.Check(okT, "R15.3", name, "started-counter", p.Pos(fn.Pos()),
+			"the drain count goes up by one exactly in the blocks that start a sender on the result channel",
+			"the started counter is not incremented exactly where senders are started: the drain count is wrong (leaked sender or blocked drain)")
+		r.Check(okD, "R15.3", name, "finished-counter", p.Pos(fn.Pos()),
+			"the drain count goes down by one exactly in the select arm that received a result",
 			"the finished counter is not incremented exactly where a result is received: the drain count is wrong")
 	}
 	if found == 0 {
@@ -809,4 +927,45 @@ func r155(c *Ctx) {
 		}
 	}
 	c.R.Floor("R15.5", 1, "the engine's mutually recursive functions")
+}
+
+// startedByGo: the closure fn is the callee of a go statement.
+func startedByGo(fn *ssa.Function) bool {
+	par := fn.Parent()
+	if par == nil {
+		return false
+	}
+	found := false
+	core.Instrs(par, func(_ *ssa.BasicBlock, _ int, ins ssa.Instruction) {
+		if g, ok := ins.(*ssa.Go); ok {
+			if mc, ok := g.Call.Value.(*ssa.MakeClosure); ok && mc.Fn == ssa.Value(fn) {
+				found = true
+			}
+		}
+	})
+	return found
+}
+
+// drainClosureLoopsN: walking the closure with its captured count set to 0, 1, 2, 5 (and a
+// negative value) executes the receive exactly max(n, 0) times.
+func drainClosureLoopsN(fn *ssa.Function, count *ssa.FreeVar) bool {
+	for _, k := range []int64{-1, 0, 1, 2, 5} {
+		recv := int64(0)
+		w := &core.Walker{Fn: fn, InitCells: map[ssa.Value]core.WVal{count: core.WInt(k)}}
+		w.OnInstr = func(ins ssa.Instruction, _ *core.Walker) bool {
+			if u, ok := ins.(*ssa.UnOp); ok && u.Op == token.ARROW {
+				recv++
+			}
+			return false
+		}
+		w.Run()
+		want := k
+		if want < 0 {
+			want = 0
+		}
+		if w.Err != "" || recv != want {
+			return false
+		}
+	}
+	return true
 }
